@@ -16,8 +16,8 @@ from . import c13
 
 OPS = {1: 'add_track', 2: 'tracks_append', 3: 'tracks_remove', 4: 'msg_append', 5: 'msg_insert',
        6: 'msg_delete', 7: 'msg_time', 8: 'set_tpb', 9: 'set_type', 10: 'iterate', 11: 'length',
-       12: 'merged_track', 13: 'save', 14: 'play', 15: 'msg_attr', 16: 'msg_replace', 17: 'msg_swap', 18: 'track_slice', 19: 'track_name', 20: 'track_double', 21: 'iter_nested', 22: 'flatten'}
-ALL_OPS = '{"add_track", "tracks_append", "tracks_remove", "msg_append", "msg_insert", "msg_delete", "msg_time", "msg_attr", "msg_replace", "msg_swap", "track_slice", "track_name", "track_double", "flatten", "set_tpb", "set_type", "iterate", "length", "merged_track", "play", "iter_nested", "save"}'
+       12: 'merged_track', 13: 'save', 14: 'play', 15: 'msg_attr', 16: 'msg_replace', 17: 'msg_swap', 18: 'track_slice', 19: 'track_name', 20: 'track_double', 21: 'iter_nested', 22: 'flatten', 23: 'tracks_reverse'}
+ALL_OPS = '{"add_track", "tracks_append", "tracks_remove", "msg_append", "msg_insert", "msg_delete", "msg_time", "msg_attr", "msg_replace", "msg_swap", "track_slice", "track_name", "track_double", "flatten", "tracks_reverse", "set_tpb", "set_type", "iterate", "length", "merged_track", "play", "iter_nested", "save"}'
 
 
 def cfg(maxops, memo, opset, emit=True):
@@ -165,6 +165,8 @@ def replay_history(hist):
                 m.note, m.channel = c % 128, c // 128
         elif op == 'msg_replace':
             mid.tracks[a - 1][b - 1] = mk(mid.tracks[a - 1][b - 1].time, c)
+        elif op == 'tracks_reverse':
+            mid.tracks = list(reversed(mid.tracks))
         elif op == 'flatten':
             mid.tracks[:] = [mid.merged_track]
         elif op == 'track_double':
